@@ -20,6 +20,7 @@ require (
 	github.com/btcsuite/btcutil v1.0.2 // indirect
 	github.com/gomodule/redigo v1.8.2 // indirect
 	github.com/jmespath/go-jmespath v0.4.0 // indirect
+	github.com/kelseyhightower/envconfig v1.4.0 // indirect
 	github.com/tyler-smith/go-bip32 v0.0.0-20170922074101-2c9cfd177564 // indirect
 	golang.org/x/crypto v0.8.0 // indirect
 )
